@@ -296,7 +296,9 @@ pub fn typed(args: &[&str]) -> Option<Vec<String>> {
         }
         _ => return None,
     };
-    Some(vec![hex(h.to_string().as_bytes()), same.unwrap_or("none").to_string()])
+    // the raw (unencoded) value of a Content-Type, as the `mime` crate normalises it
+    let raw = if kind == "ctype" { h.get_raw("Content-Type").map(|r| hex(r.as_bytes())).unwrap_or("-".into()) } else { "-".to_string() };
+    Some(vec![hex(h.to_string().as_bytes()), same.unwrap_or("none").to_string(), raw])
 }
 
 /// `build <op,op,…>`: ops `F`/`S`/`T`/`C`/`B`/`R` `:<name|->:<addr>`, `E:<from|->:<to;to>`, `K`;
